@@ -348,15 +348,21 @@ impl BackwardEngine {
         // Parse the aggregate query
         let agg_query = parse_aggregate_query(query)?;
 
-        // Set max_solutions to unlimited for aggregation
+        // Set max_solutions to unlimited for aggregation. The memo cache keeps verdicts
+        // only, and an aggregate needs the solutions themselves, so the pattern query
+        // is run without it.
         let original_max = self.config.max_solutions;
+        let original_memo = self.config.enable_memoization;
         self.config.max_solutions = usize::MAX;
+        self.config.enable_memoization = false;
 
         // Execute the underlying pattern query to get all solutions
-        let result = self.query(&agg_query.pattern, facts)?;
+        let result = self.query(&agg_query.pattern, facts);
 
-        // Restore original max_solutions
+        // Restore the original configuration (also when the query failed)
         self.config.max_solutions = original_max;
+        self.config.enable_memoization = original_memo;
+        let result = result?;
 
         // Apply aggregation to solutions
         let value = apply_aggregate(&agg_query.function, &result.solutions)?;
